@@ -1,10 +1,13 @@
 """C23 - generators, coroutines and async generators follow CPython's protocol on every history.
 
 Explicit-state search over operation histories of live compiled generator / coroutine / async
-generator objects.  ~65 bodies (one source text) are compiled with the staged Cython and also
+generator objects.  ~95 bodies (one source text; incl. the complete product outer-except-handler x {nested try/except
+that catches, nested try/except that does not raise, nested with} x suspension x {bare raise, log sys.exc_info(), raise
+other} for sync generators, coroutines and async generators) are compiled with the staged Cython and also
 executed by CPython.  For every body, EVERY history over the operation alphabet up to the depth
 bound is executed in lock-step on a fresh compiled object and a fresh CPython object; the step
-outcome (yielded value | StopIteration value | StopAsyncIteration | exception type (+ user args)),
+outcome (yielded value | StopIteration value | StopAsyncIteration | exception type (+ user args, __cause__ type,
+__context__ type chain)),
 the cleanup/delegation log written during the step and the sys.unraisablehook events are compared
 after every step.  A history is not extended past its first divergent step, so every reported
 history is a minimal divergent one; it is then delta-minimised and keyed by
@@ -33,10 +36,11 @@ from props import _g7_c23 as H
 LEVEL = 'model_checking'
 ENGINE = 'E3 histexplore'
 TECHNIQUE = 'exhaustive lock-step execution of all operation histories on fresh compiled vs CPython generator objects'
-LEVEL_TEXT = ('For each of ~65 generator/coroutine/async-generator bodies every history of protocol operations up to '
+LEVEL_TEXT = ('For each of ~95 generator/coroutine/async-generator bodies every history of protocol operations up to '
               'length 5 (sync generators; 6 thorough, 8 with state dedup) / 4 (coroutines, async generators; 6 thorough) is '
               'executed on a fresh compiled object and a fresh CPython object created from the same source; yielded '
-              'values, StopIteration values, exception types, cleanup/delegation logs and unraisable events are '
+              'values, StopIteration values, exception types + __context__ type chains, cleanup/delegation logs (incl. logged '
+              'sys.exc_info) and unraisable events are '
               'compared after every step; histories are pruned at the first divergence.')
 LEVEL_NOTE = ('Bounded history length and a fixed body set. Excluded by design: gi_frame/gi_code/tracebacks, exception message '
               'texts of runtime-generated errors (types only; args compared for user-raised exceptions), "never awaited" '
